@@ -3,6 +3,7 @@ Per-property check: run the contracts, classify verdicts, handle known findings,
 print HELD / KNOWN-FINDING / VIOLATION / UNDECIDED and return the exit code.
 """
 import json
+import re
 import os
 import sys
 import time
@@ -326,7 +327,7 @@ def check_property(prop, tier='quick', seed=0):
             refuted_known_obligations=[v['name'] for _k, v in known_hits],
             undecided=len([1 for v in all_verdicts if v['status'] == 'unknown']),
             checker_cmd=f'./check {prop} {tier}',
-            trusted_base=sorted(a for a in trusted_base if not a.startswith('UNCHECKED')),
+            trusted_base=sorted(a for a in trusted_base if not a.startswith(('UNCHECKED', 'REQUIRES '))),
             back_ends=backends,
             solver_time_s=round(sum(v['time_s'] for v in all_verdicts), 2),
             functions_under_contract=functions,
@@ -348,7 +349,8 @@ def check_property(prop, tier='quick', seed=0):
                         'execution against sidecar contracts and discharged by z3/cvc5 (unsat of pc ∧ ¬clause)',
         ),
         assumptions=GLOBAL_ASSUMPTIONS + prop_assumptions(prop) + assumed_contracts
-        + [a for a in sorted(trusted_base) if a.startswith('UNCHECKED')],
+        + [a for a in sorted(trusted_base) if a.startswith('UNCHECKED')]
+        + entry_preconditions(trusted_base, results),
         wall_s=round(wall, 2),
         violations=len(violations),
     )
@@ -388,6 +390,24 @@ def seeded_self_test(prop):
                             reported=[ln for ln in r.stdout.splitlines() if ln.startswith('VIOLATION')][:3]))
         finally:
             shutil.rmtree(scratch, ignore_errors=True)
+    return out
+
+
+def entry_preconditions(trusted_base, results):
+    """preconditions that no call site under contract discharged in this run: they restrict the domain of the proof (public
+    entry points, and helpers whose callers are outside this property's functions)"""
+    checked = set()
+    for r in results:
+        for v in r.get('verdicts', []):
+            m = re.search(r'#call:(.+?)\.pre\[(.*)\]$', v['name'])
+            if m:
+                checked.add((m.group(1), m.group(2)))
+    out = []
+    for a in sorted(trusted_base):
+        if a.startswith('REQUIRES '):
+            fn, name = a[len('REQUIRES '):].split(': ', 1)
+            if (fn, name) not in checked:
+                out.append(f'ENTRY PRECONDITION of {fn} (domain of the proof: discharged at no call site under contract in this run): {name}')
     return out
 
 
